@@ -12,7 +12,7 @@ import numpy as onp
 UNARY = ["sin", "cos", "tanh", "expm", "square", "neg", "softplus", "recip"]
 BINARY = ["add", "sub", "mul", "divs", "maxs"]
 ALIAS = ["reshape_rt", "transpose_rt", "getall", "ravel_rt", "ident_add0", "expand_squeeze", "swap_rt"]
-SPARSE = ["gather", "rev", "slice_pad", "take1"]
+SPARSE = ["gather", "rev", "slice_pad", "take1", "sort_a", "sort_neg"]
 REDUCE = ["sum_b", "mean_b", "cumsum", "dot_b", "einsum3", "concat3", "stack_mean", "where2"]
 CONTROL = ["if_pos", "while_half", "rec_pow", "closure_scale", "if_truthy", "while_truthy", "nested_indep"]
 USER = ["log_scale", "log_mul", "log_tri", "log_ident"]
@@ -147,6 +147,11 @@ def interpret_values(prog, x, xp, user=None, on_op=None, blog=None):
             r = xp.reshape(xp.concatenate([fl[lo:], fl[:lo] * 0.5]), shape)
         elif name == "take1":
             r = xp.ravel(a)[p["i"]] * onp.ones(shape) + 0.1 * a
+        elif name == "sort_a":
+            # sorting (a permutation chosen by the values): several sorts of equal length in one program
+            r = xp.reshape(xp.sort(xp.ravel(a)), shape) * 0.5 + a * 0.25
+        elif name == "sort_neg":
+            r = xp.reshape(xp.sort(-xp.ravel(a) * 1.3), shape) * 0.4 - a * 0.1
         elif name == "sum_b":
             r = 0.2 * xp.sum(a) + 0.5 * a
         elif name == "mean_b":
